@@ -627,7 +627,7 @@ def init (width height : α) (vb : α × α × α × α) (err : Bool) (lens : Li
 def parseSVG (h : SvgHead α) (attrs : List (Attr α)) (children : List (Tree α)) (lens : List α) : P α :=
   let (w, hh, vb, e) := parseViewBox o h
   -- a given width/height is in px (the user unit when there is no viewBox, i.e. no positive width/height
-  -- in the view box: fdd9e33), the canvas is in mm (svg.go ParseSVG)
+  -- in the view box: 4deb0ae), the canvas is in mm (svg.go ParseSVG)
   let given (d : Option (α × String)) : Bool := match d with | some (_, u) => u != "%" | none => false
   let (w, vb) := if given h.width then
       (o.mul w o.mmPerPx, if o.le vb.2.2.1 o.zero then (vb.1, vb.2.1, o.add vb.1 w, vb.2.2.2) else vb)
